@@ -496,7 +496,9 @@ XMLUTF8Transcoder::transcodeTo( const   XMLCh* const    srcData
                 );
             }
 
-            // Else, use the replacement character
+            // Else, use the replacement character, if there is room for it
+            if (outPtr >= outEnd)
+                break;
             *outPtr++ = chSpace;
             srcPtr += srcUsed;
             continue;
